@@ -105,6 +105,7 @@ func runC02(e *Env) {
 	if e.want("C02.R4") {
 		c02TokenLen(e, sums)
 		c02Accumulate(e)
+		skipLeavesIDZero(e, "C02.R4")
 	}
 	if e.want("C02.R5") {
 		c02NoAlias(e)
@@ -509,8 +510,9 @@ func c02TokenLen(e *Env, sums map[string]core.Summary) {
 
 // c02Accumulate: the running option number advances by every parsed delta – kept or dropped option alike:
 // on every loop back edge the value carried into `prev` is the range-checked sum of this iteration.
-func c02Accumulate(e *Env) {
-	rule := "C02.R4"
+func c02Accumulate(e *Env) { c02AccumulateAs(e, "C02.R4") }
+
+func c02AccumulateAs(e *Env, rule string) {
 	f := e.fn(rule, "message.Options.Unmarshal")
 	if f == nil {
 		return
